@@ -422,3 +422,26 @@ pub fn can_use_short_hex(color: &crate::color::Color) -> bool {
 pub fn number_to_string(n: crate::value::Number, is_compressed: bool) -> String {
     n.to_string(is_compressed)
 }
+
+pub fn serialize_calculation_arg(
+    arg: &crate::value::CalculationArg,
+    options: &crate::Options<'_>,
+    span: Span,
+) -> Result<String, Span> {
+    err_span(crate::serializer::serialize_calculation_arg(arg, options, span))
+}
+
+/// The character-level lexer (`TokenLexer`), one token at a time (no `collect`, so harnesses keep
+/// every allocation size concrete).
+pub struct VTokenLexer<'a>(crate::lexer::TokenLexer<'a>);
+
+impl<'a> VTokenLexer<'a> {
+    pub fn new(s: &'a str) -> Self {
+        VTokenLexer(crate::lexer::TokenLexer::new(s.chars().peekable()))
+    }
+
+    /// (kind, byte position)
+    pub fn next_token(&mut self) -> Option<(char, u32)> {
+        self.0.next().map(|t| (t.kind, t.verif_pos()))
+    }
+}
